@@ -1439,7 +1439,7 @@ package connect
 //@   tags C05, C07, C08, C09, C01
 //@   implements protocolHandler.NewConn
 //@   requires h != nil && responseWriter != nil && request != nil && h.protocolHandlerParams.CompressionPools != nil && h.protocolHandlerParams.Codecs != nil
-//@   assert@call(negotiateCompression#1): arg0 == h.protocolHandlerParams.CompressionPools && (h.protocolHandlerParams.Spec.StreamType == 0 ==> arg1 == hget(request.Header, "Content-Encoding") && arg2 == joined(hvals(request.Header, "Accept-Encoding"), ",")) && (h.protocolHandlerParams.Spec.StreamType != 0 ==> arg1 == hget(request.Header, "Connect-Content-Encoding") && arg2 == joined(hvals(request.Header, "Connect-Accept-Encoding"), ","))   // label: negotiation-reads-the-request-encoding-and-the-accept-list-from-their-headers   // tags: C08, C07
+//@   assert@call(negotiateCompression#1): arg0 == h.protocolHandlerParams.CompressionPools && (h.protocolHandlerParams.Spec.StreamType == 0 ==> arg1 == joined(hvals(request.Header, "Content-Encoding"), ",") && arg2 == joined(hvals(request.Header, "Accept-Encoding"), ",")) && (h.protocolHandlerParams.Spec.StreamType != 0 ==> arg1 == joined(hvals(request.Header, "Connect-Content-Encoding"), ",") && arg2 == joined(hvals(request.Header, "Connect-Accept-Encoding"), ","))   // label: negotiation-reads-the-request-encoding-and-the-accept-list-from-their-headers   // tags: C08, C07
 //@   assigns everything
 //@   ensures callres("negotiateCompression", 1, 2) != nil ==> !ok && called("handlerConnCloser.Close", 1)                 // label: failed-negotiation-closes-the-conn-with-the-error   // tags: C07, C08
 //@   ensures callres("negotiateCompression", 1, 2) == nil ==> ok && conn != nil                                            // label: successful-negotiation-yields-a-conn
@@ -1453,7 +1453,7 @@ package connect
 //@   tags C05, C07, C08, C09, C01
 //@   implements protocolHandler.NewConn
 //@   requires g != nil && responseWriter != nil && request != nil && rwstatus(responseWriter) == 0 && g.protocolHandlerParams.CompressionPools != nil && g.protocolHandlerParams.Codecs != nil
-//@   assert@call(negotiateCompression#1): arg0 == g.protocolHandlerParams.CompressionPools && arg1 == hget(request.Header, "Grpc-Encoding") && arg2 == joined(hvals(request.Header, "Grpc-Accept-Encoding"), ",")   // label: negotiation-reads-the-request-encoding-and-the-accept-list-from-their-headers   // tags: C08, C07
+//@   assert@call(negotiateCompression#1): arg0 == g.protocolHandlerParams.CompressionPools && arg1 == joined(hvals(request.Header, "Grpc-Encoding"), ",") && arg2 == joined(hvals(request.Header, "Grpc-Accept-Encoding"), ",")   // label: negotiation-reads-the-request-encoding-and-the-accept-list-from-their-headers   // tags: C08, C07
 //@   assigns everything
 //@   ensures old(!g.web && request.ProtoMajor == 1 && request.ProtoMinor == 0) ==> !ok && rwstatus(responseWriter) == 505 && !called("negotiateCompression", 1)   // label: grpc-over-http-1.0-(no-trailers,-so-no-status)-is-refused-with-505   // tags: C07
 //@   ensures called("negotiateCompression", 1) && callres("negotiateCompression", 1, 2) != nil ==> !ok && called("handlerConnCloser.Close", 1)                 // label: failed-negotiation-closes-the-conn-with-the-error   // tags: C07, C08
